@@ -311,6 +311,67 @@ theorem C19_roundtrip_dirty (dst u : List UInt8) (h : u.length = 16) :
   · intro p; simp [unmarshalCQL, h]
   · simp only [marshalCQL, parseUUID_eq_parse, runes_print, parse_print u h]
 
+/-- The same JSON key twice (`{"id":A,"id":B}`): encoding/json decodes both into the SAME field; if all
+    occurrences decode, the field holds the parsed value of the LAST one, whatever it held before and whatever
+    the earlier occurrences were. -/
+theorem C19_json_dup_keys_last_wins (ls : List (List UInt8)) : ∀ (dst : List UInt8) (l : List UInt8),
+    (jsonCalls dst (ls ++ [l])).1 = true →
+    parse (runes (trimQuotes l)) = some (jsonCalls dst (ls ++ [l])).2 := by
+  induction ls with
+  | nil =>
+    intro dst l h
+    simp only [List.nil_append, jsonCalls] at h ⊢
+    split at h
+    · rename_i h1
+      simp only [jsonCalls] at h ⊢
+      rw [if_pos h1]
+      exact (C19_decode_success_is_parse dst).2 l h1
+    · rename_i h1
+      simp [h1] at h
+  | cons a ls ih =>
+    intro dst l h
+    simp only [List.cons_append, jsonCalls] at h ⊢
+    split
+    · rename_i h1
+      rw [if_pos h1] at h
+      exact ih _ l h
+    · rename_i h1
+      rw [if_neg h1] at h
+      exact absurd h h1
+
+/-- CQL marshal → unmarshal through every pair of value kind and destination kind, on a dirty destination:
+    `marshalUUID` of a UUID / [16]byte / 16-byte []byte / canonical string is the 16 bytes, and `unmarshalUUID`
+    of those stores them (as the canonical text for `*string`) whatever the destination held. -/
+theorem C19_cql_marshal_unmarshal (u : List UInt8) (h : u.length = 16) :
+    marshalCQL (.uuid u) = some u ∧ marshalCQL (.arr u) = some u ∧ marshalCQL (.bytes (some u)) = some u ∧
+    marshalCQL (.str (asciiBytes (print u))) = some u ∧
+    (∀ b, b.length ≠ 16 → marshalCQL (.bytes (some b)) = none) ∧
+    (∀ p, unmarshalCQL u (.uuid p) = (true, .uuid u) ∧ unmarshalCQL u (.arr p) = (true, .arr u) ∧
+          unmarshalCQL u (.str p) = (true, .str (asciiBytes (print u)))) ∧
+    (∀ q, unmarshalCQL u (.bytes q) = (true, .bytes (some u))) := by
+  refine ⟨rfl, rfl, by simp [marshalCQL, h], (C19_roundtrip_dirty [] u h).2.2.2.2, ?_, ?_, ?_⟩
+  · intro b hb; simp [marshalCQL, hb]
+  · intro p; simp [unmarshalCQL, h]
+  · intro q; simp [unmarshalCQL, h]
+
+/-- A timeuuid column read into a `*time.Time`: for every representable instant, the time-UUID built from it
+    (any clock, any node) decodes to that instant truncated to 100 ns, whatever the destination held; anything
+    that is not a 16-byte version-1 value (also a null) is an error that leaves the destination untouched. -/
+theorem C19_cql_time_destination (sec : Int) (nsec clk : Nat) (nd : List UInt8) (h : Representable sec nsec)
+    (prev : Int × Nat) :
+    unmarshalCQLTime true (timeUUIDWith (bits64 (getTimestamp sec nsec)) clk nd) prev = (true, (sec, nsec / 100 * 100)) ∧
+    (∀ data, data.length ≠ 16 → unmarshalCQLTime true data prev = (false, prev)) ∧
+    (∀ data, version data ≠ 1 → unmarshalCQLTime true data prev = (false, prev)) ∧
+    (∀ data, unmarshalCQLTime false data prev = (false, prev)) := by
+  refine ⟨?_, ?_, ?_, ?_⟩
+  · simp only [unmarshalCQLTime, with_length, time_roundtrip sec nsec clk nd h]
+    simp
+  · intro data hd; simp [unmarshalCQLTime, hd]
+  · intro data hv
+    simp only [unmarshalCQLTime, time, hv]
+    split <;> simp
+  · intro data; simp [unmarshalCQLTime]
+
 /-- non-vacuity, and two things worth knowing about `UnmarshalJSON`: (1) it is STRICTER than `ParseUUID` on long
     texts (more than 4 extra hyphens → error); (2) it never looks at the JSON token kind: a 32-digit JSON NUMBER
     (also negative, also with an exponent letter, `e` being a hex digit) decodes as a UUID. -/
